@@ -125,11 +125,11 @@ End Files.
 
 Lemma glob_builtin_spec inc exc t l :
   glob_builtin inc exc t = Some l ->
-  forall p, p <> [] ->
+  forall p,
     (In p l <-> (exists way, In (p, way) (files_below [] [] t) /\ ~ In dawn_build way)
                 /\ matches_some inc p = true /\ matches_some exc p = false).
 Proof.
-  unfold glob_builtin. intros H p Hp. rewrite (glob_select_spec _ _ _ _ H p Hp).
+  unfold glob_builtin. intros H p. rewrite (glob_select_spec _ _ _ _ H p).
   fold (matches_some inc p) (matches_some exc p).
   rewrite (walk_files_filter (str_eqb dawn_build) t [] [] eq_refl), in_map_iff.
   assert (Hway : forall way, forallb (fun d => negb (str_eqb dawn_build d)) way = true <-> ~ In dawn_build way).
@@ -149,6 +149,6 @@ Proof. apply glob_select_fails. Qed.
 
 Lemma os_glob_spec inc exc t l :
   os_glob inc exc t = Some l ->
-  forall p, p <> [] ->
+  forall p,
     (In p l <-> In p (walk_all [] t) /\ matches_some inc p = true /\ matches_some exc p = false).
-Proof. unfold os_glob. intros H p Hp. exact (glob_select_spec _ _ _ _ H p Hp). Qed.
+Proof. unfold os_glob. intros H p. exact (glob_select_spec _ _ _ _ H p). Qed.
